@@ -193,7 +193,7 @@ func runC16(c *core.Ctx) {
 		a := rule(c, "C16.R2")
 		for _, w := range p.WritersOf(fGen) {
 			switch {
-			case w.Fn == flush:
+			case ownerOf(c, w.Fn) == flush:
 				d := descSet(w.Val)
 				a.check(d == "(fld(PipelinedMemDB.generation,recv) + const(1))", fname(flush)+" generation += 1", w.Instr, d, "the generation is not advanced by exactly one per flush: "+d)
 			case fname(w.Fn) == "internal/unionstore.NewPipelinedMemDB":
